@@ -27,7 +27,11 @@ Definition option_sets (n : node) (tag : string) (fp : list string) : list optse
      [("ex-self", ex [q]); ("fi-self", fi (with_anc fp)); ("ex-self+", ex [q; "Nope"])] ++
      match ancs with
      | [] => []
-     | top :: _ => [("ex-anc", ex [dotted top]); ("fi-noanc", fi [q]); ("fi-anc", fi (map dotted ancs))]
+     | top :: _ =>
+       (* [leafname]: the last field name alone - an unrelated root-level key of the same name *)
+       let leafname := last fp "" in
+       [("ex-anc", ex [dotted top]); ("fi-noanc", fi [q]); ("fi-anc", fi (map dotted ancs));
+        ("ex-leafname", ex [leafname]); ("fi-leafname", fi [leafname]); ("fi-anc-leafname", fi (leafname :: map dotted ancs))]
      end ++
      match sibling fp n with
      | Some s => [("ex-sib", ex [dotted s]); ("fi-sib", fi (with_anc s)); ("both-exsib", Some (DeqOpts zero [dotted s] ["Nope"]));
@@ -40,10 +44,17 @@ Definition option_sets (n : node) (tag : string) (fp : list string) : list optse
        ("prec-hi-fi", Some (DeqOpts p_hi [] (with_anc fp))); ("prec-lo-ex", Some (DeqOpts p_lo ["Nope"] []))]
     else []))%list.
 
-(* quick tier: the second and the last variant of every unit *)
-Definition pick_variants (tier : Z) (l : list (nat * val)) : list (nat * val) :=
+(* quick tier: per unit the variant with the most mutation positions (every collection populated, so that
+   every field of every element of every collection-of-structs field is mutated) and the second variant *)
+Definition richest (n : node) (l : list (nat * val)) : nat :=
+  fst (fold_left (fun (best : nat * nat) (iv : nat * val) =>
+                    let c := List.length (muts n (snd iv)) in
+                    if Nat.ltb (snd best) c then (fst iv, c) else best) l (0%nat, 0%nat)).
+
+Definition pick_variants (tier : Z) (n : node) (l : list (nat * val)) : list (nat * val) :=
   if Z.eqb tier 0 then
-    filter (fun iv => Nat.eqb (fst iv) 1 || Nat.eqb (S (fst iv)) (List.length l)) l
+    let r := richest n l in
+    filter (fun iv => Nat.eqb (fst iv) 1 || Nat.eqb (fst iv) r) l
   else l.
 
 Definition case_lines (tier : Z) (u : string * ty) : list string :=
@@ -62,7 +73,7 @@ Definition case_lines (tier : Z) (u : string * ty) : list string :=
                  (fst u) n "p" "p" true o false a b (pr_demand d))
         (option_sets n t fp))
       (combine (seqn (List.length (muts n a))) (muts n a)))
-  (pick_variants tier vs).
+  (pick_variants tier n vs).
 
 (* ---------- DEQMustCheck, exhaustively over the option classes ---------- *)
 Definition mc_opts : list optset :=
